@@ -251,3 +251,113 @@ EXPLANATION = "under construction"
 ASSUMPTIONS = []
 TRUSTED = []
 BOUNDED = [{"name": "precedence-vs-reference-fold", "script": "bounded/b04_precedence.py"}]
+
+
+# ------------------------------------------------------------------------------------------------ get_defaults
+# the lowest layer of the documented order: declared defaults (copies), overridden by each default config file in the order of
+# _get_default_config_files (a later file over an earlier one), each file loaded relative to its own directory and completed by
+# _parse_common without environment / defaults / required check; a failure in a file is an ArgumentError naming it.
+def gd_setup(ctx):
+    from pyvc.engine import ExcVal, PyRaise
+    kinds = [("value",), ("value", "suppressed-default", "value"), ("unknown-default", "value"), ("suppressed-dest", "value"), ()][ctx.choose(5, "declared-actions")]
+    files = [(), ("valid",), ("empty",), ("blank", "valid"), ("valid", "valid"), ("valid", "empty", "valid")][ctx.choose(6, "default-config-files")]
+    fail = ["none", "TypeError", "KeyError", "ArgumentError", "OSError"][ctx.choose(5, "completing-a-file-fails-with")] if "valid" in files else "none"
+    skip_validation = z3.Bool("skip_validation")
+    ctx.classes.add("UnknownDefault", ["object"])
+    ctx.classes.add("Path", ["object"])
+    SUPPRESS = "==SUPPRESS=="
+    actions, copies = [], {}
+    for i, kd in enumerate(kinds):
+        dflt = {"value": Rec("declared default", attrs={"i": i}), "suppressed-default": SUPPRESS, "unknown-default": Rec("UnknownDefault"), "suppressed-dest": Rec("declared default", attrs={"i": i})}[kd]
+        actions.append(Rec("Action", attrs={"dest": SUPPRESS if kd == "suppressed-dest" else f"k{i}", "default": dflt, "kind": kd}))
+    store = {}
+    cfg0 = Rec("Namespace", attrs={"expr": "DECLARED", "store": store}, methods={
+        "__setitem__": lambda c, s_, a, k: s_.attrs["store"].__setitem__(a[0], a[1]), "get": lambda c, s_, a, k: s_.attrs["store"].get(a[0])})
+    paths = [Rec("Path", attrs={"i": i, "kind": kd}, methods={"get_content": lambda c, s_, a, k: {"valid": "a: 1\n", "empty": "", "blank": " \n\t"}[s_.attrs["kind"]]}) for i, kd in enumerate(files)]
+
+    def recreate(c, a, k):
+        r = Rec("copy", attrs={"of": a[0]})
+        copies[id(a[0])] = r
+        return r
+
+    def load(c, s_, a, k):
+        c.event("load", a[0], k.get("key"), list(open_cms))
+        return Rec("Namespace", attrs={"expr": ("FILE", len([e for e in c.events if e[0] == "load"]) - 1)})
+
+    def merge(c, s_, a, k):
+        c.event("merge", a[0].attrs["expr"], a[1].attrs["expr"])
+        return mk_cfg(("ov", a[1].attrs["expr"], a[0].attrs["expr"]), a[1].attrs.get("store", {}))
+
+    def mk_cfg(expr, st_):
+        meta = dict(st_)
+        return Rec("Namespace", attrs={"expr": expr, "store": meta}, methods={"__setitem__": lambda c, s_, a, k: s_.attrs["store"].__setitem__(a[0], a[1]), "get": lambda c, s_, a, k: s_.attrs["store"].get(a[0])})
+
+    def parse_common(c, s_, a, k):
+        c.event("complete", k["cfg"].attrs["expr"], {x: k[x] for x in ("env", "defaults", "with_meta", "skip_required")}, k["skip_validation"], list(open_cms))
+        if fail != "none":
+            raise PyRaise(ExcVal(fail, args=("bad value",), origin="_parse_common"))
+        return mk_cfg(("completed", k["cfg"].attrs["expr"]), k["cfg"].attrs["store"])
+
+    open_cms = []
+
+    def cm(name):
+        return (lambda c, a, k: open_cms.append((name, a[0] if a else k.get("parent_parser"))), lambda c, t, e: (open_cms.pop(), False)[1])
+
+    self = Rec("ArgumentParser", attrs={"_actions": actions, "_logger": Rec("Logger", methods={"debug": lambda c, s_, a, k: None})},
+               methods={"_get_default_config_files": lambda c, s_, a, k: [(f"key{i}" if i else None, p) for i, p in enumerate(paths)], "_load_config_parser_mode": load, "merge_config": merge, "_parse_common": parse_common})
+    calls = {"deprecated_skip_check": lambda c, a, k: a[2], "Namespace": lambda c, a, k: cfg0, "filter_default_actions": lambda c, a, k: list(a[0]), "recreate_branches": recreate,
+             "argument_error": lambda c, a, k: ExcVal("ArgumentError", args=(a[0],), origin="argument_error"),
+             "ActionTypeHint.add_sub_defaults": lambda c, a, k: c.event("add_sub_defaults", a[0], a[1])}
+    consts = {"argparse": Rec("argparse", attrs={"SUPPRESS": SUPPRESS, "ArgumentError": ClassRef("ArgumentError")}), "UnknownDefault": ClassRef("UnknownDefault"), "Path": ClassRef("Path"),
+              "ArgumentParser": Rec("class ArgumentParser", attrs={"get_defaults": Rec("function")})}
+    cms = {"change_to_path_dir": cm("cwd"), "parser_context": cm("parser_context"), "_ActionPrintConfig.skip_print_config": cm("skip_print_config")}
+    return Setup(env={"self": self, "skip_validation": skip_validation, "kwargs": {}}, calls=calls, consts=consts, cms=cms,
+                 data=dict(kinds=kinds, files=files, fail=fail, actions=actions, copies=copies, store=store, paths=paths, self_=self, skip_validation=skip_validation, open_cms=open_cms))
+
+
+def gd_expected_expr(files):
+    e = "DECLARED"
+    n = 0
+    for kd in files:
+        if kd == "valid":
+            e = ("completed", ("ov", e, ("FILE", n)))
+            n += 1
+    return e
+
+
+def gd_post(ctx, st, result):
+    d = st.data
+    tag = f"[actions:{list(d['kinds'])},files:{list(d['files'])}]"
+    want_keys = {a.attrs["dest"]: a for a in d["actions"] if a.attrs["kind"] == "value"}
+    ok = set(d["store"]) >= set(want_keys) and all(isinstance(d["store"][k], Rec) and d["store"][k].cls == "copy" and d["store"][k].attrs["of"] is a.attrs["default"] for k, a in want_keys.items())
+    ctx.oblige("post", "every-declared-default-is-in-the-result-as-a-copy(never the parser's own object);suppressed-and-unknown-defaults-are-left-out" + tag,
+               ok and not [k for k in d["store"] if k not in want_keys and k != "__default_config__"])
+    ctx.oblige("post", "no-failure-is-swallowed" + tag, d["fail"] == "none")
+    ctx.oblige("post", "result==declared-defaults-overridden-by-each-non-empty-default-config-file-in-order(later over earlier),each-completed" + tag, result.attrs["expr"] == gd_expected_expr(d["files"]), note=str(result.attrs["expr"]))
+    valid = [p for p in d["paths"] if p.attrs["kind"] == "valid"]
+    loads = [e for e in ctx.events if e[0] == "load"]
+    comps = [e for e in ctx.events if e[0] == "complete"]
+    inside = lambda cms_, p: ("cwd", p) in cms_ and ("parser_context", d["self_"]) in cms_  # noqa: E731
+    ctx.oblige("post", "each-file-is-loaded-and-completed-inside-its-own-directory-and-this-parser's-context" + tag,
+               len(loads) == len(valid) == len(comps) and all(inside(l[3], p) and inside(c_[4], p) for l, c_, p in zip(loads, comps, valid)))
+    ctx.oblige("post", "completion-uses-no-environment,no-defaults,no-required-check,and-the-caller's-skip_validation;no-print_config-inside" + tag,
+               all(c_[2] == {"env": False, "defaults": False, "with_meta": None, "skip_required": True} and c_[3] is d["skip_validation"] and any(x[0] == "skip_print_config" for x in c_[4]) for c_ in comps))
+    meta = result.attrs["store"].get("__default_config__") if "store" in result.attrs else None
+    want_meta = None if not valid else valid[0] if len(valid) == 1 else valid
+    ctx.oblige("post", "__default_config__-records-the-files-that-were-applied,in-order" + tag, (meta is want_meta) if not isinstance(want_meta, list) else (isinstance(meta, list) and len(meta) == len(valid) and all(x is y for x, y in zip(meta, valid))))
+    ctx.oblige("post", "no-context-is-left-open;sub-defaults-added-last-on-the-result" + tag, not d["open_cms"] and ctx.events[-1][0] == "add_sub_defaults" and ctx.events[-1][2] is result)
+
+
+def gd_raises(ctx, st, exc):
+    d = st.data
+    tag = f"[files:{list(d['files'])},fails:{d['fail']}]"
+    if d["fail"] in ("TypeError", "KeyError", "ArgumentError"):
+        ctx.oblige("raises", "a-problem-in-a-default-config-file-surfaces-as-ArgumentError" + tag, exc.cls == "ArgumentError" and exc.origin == "argument_error")
+    else:
+        # what happens to other exception classes is not fixed by this property (C03 would want ArgumentError): either is accepted, inventing one is not
+        ctx.oblige("raises", f"an-exception-only-when-completing-a-file-failed(got {exc.cls}@{exc.origin})" + tag, d["fail"] == "OSError" and exc.cls in ("OSError", "ArgumentError"))
+    ctx.oblige("raises", "no-context-is-left-open-on-failure" + tag, not d["open_cms"])
+
+
+UNITS.append(Unit("C04", "jsonargparse._core:ArgumentParser.get_defaults", gd_setup, gd_post, gd_raises, max_paths=20000, expect_cover=("return", "raise:ArgumentError"),
+                  trusted=["merge_config(a, b) == ov(b, a) (its own unit)", "_parse_common completes a configuration (its own units)", "recreate_branches copies (C08 unit)", "_get_default_config_files lists the files in application order (its own unit)"]))
